@@ -955,8 +955,8 @@ impl Scenario for C15 {
     const LEVEL: &'static str = "exploration";
     fn runs(tier: Tier) -> u64 {
         match tier {
-            Tier::Quick => 80_000,
-            Tier::Thorough => 2_500_000,
+            Tier::Quick => 250_000,
+            Tier::Thorough => 6_000_000,
         }
     }
     fn rule() -> &'static str {
